@@ -73,11 +73,15 @@ class Spec:
         self.after = None         # callable(solver) run after construction
         self.constructible = True
         self.note = ""
+        self.alt = {}             # a second, valid, non-default parameter set (may be empty)
 
-    def build(self):
+    def build(self, alt=False):
         args = self.args() if callable(self.args) else self.args
+        kw = dict(self.kwargs)
+        if alt:
+            kw.update(self.alt)
         with contextlib.redirect_stdout(io.StringIO()):
-            s = self.cls(*args, **self.kwargs)
+            s = self.cls(*args, **kw)
             if self.after:
                 self.after(s)
         return s
@@ -162,7 +166,39 @@ def describe(name, cls):
         s.points = lin(0.55, 1.2); s.t = 1.0; s.cost = "slow"
     elif pk == "suolson":
         s.points = lin(0.1, 5.0); s.t = 1.0e-9
+    # a second parameter set: explicit table first, then generic choices by parameter name
+    if name in STATEFUL and STATEFUL[name][2]:
+        s.alt = dict(STATEFUL[name][2])
+    elif name in ALT:
+        s.alt = dict(ALT[name])
+    else:
+        P = cls.parameters
+        if pk in ("cog", "noh", "noh2") and "rho0" in P:
+            s.alt["rho0"] = 2.5
+        if pk in ("noh",) and "gamma" in P:
+            s.alt["gamma"] = 1.4
+        if pk == "noh2" and "gamma" in P:
+            s.alt["gamma"] = 1.4
+        if pk == "cog" and "Gamma" in P:
+            s.alt["Gamma"] = 1.5
     return s
+
+
+ALT = {
+    "kenamond.kenamond1.Kenamond1": {"x_d": (1.0, 1.0), "t_d": 0.5, "D": 2.0},
+    "kenamond.kenamond3.Kenamond3": {"x_d": (1.0, 6.0), "R": 2.5},
+    "dsd.cylexpansion.CylindricalExpansion": {"r_1": 0.8, "alpha_2": 0.05, "t_d": 0.3},
+    "ehep.ehep.EscapeOfHEProducts": {"D": 1.0, "up": 0.1, "xtilde": 0.8},
+    "ep_piston.ep_piston.EPpiston": {"up": 0.02, "model": "hypo"},
+    "heat.rod1d.Rod1D": {"TL": 1.0, "TR": 4.0, "kappa": 0.5, "gamma1": 2.0, "gamma2": 1.0},
+    "heat.hutchens1.Hutchens1": {"Tb": 3.0, "b": 1.5},
+    "heat.hutchens2.Hutchens2": {"TL": 3.0},
+    "heat.rectangle.Rectangle": {"Ttop": 2.0, "kappa": 0.5},
+    "heat.planar_sandwich.PlanarSandwich": {"TB": 2.0, "TT": 1.0},
+    "sedov.SphericalSedov": {"gamma": 5.0 / 3.0, "omega": 1.0},
+    "sedov.CylindricalSedov": {"gamma": 5.0 / 3.0, "eblast": 2.0},
+    "sedov.PlanarSedov": {"gamma": 5.0 / 3.0, "rho0": 2.0},
+}
 
 
 _CACHE = None
